@@ -161,6 +161,7 @@ pub fn check_c14(buf: &[u8], align_sel: u8, elf64: bool, little: bool) -> Result
             (None, Some(_)) => fail!("note #{}: the iterator stops at offset {} although a whole record fits there (align {})", k, off, align),
             (Some(n), Some((next, ty, (ns, ne), (ds, de)))) => {
                 let name = &buf[ns..ne]; let desc = &buf[ds..de];
+                let same = |d: &[u8], w: &[u8]| d.len() == w.len() && (w.is_empty() || core::ptr::eq(d.as_ptr(), w.as_ptr()));
                 match n {
                     Note::GnuAbiTag(t) => {
                         if !(name == b"GNU\0" && ty == 1) { fail!("note #{}: typed as ABI tag but name/type are {:?}/{}", k, name, ty); }
@@ -169,11 +170,11 @@ pub fn check_c14(buf: &[u8], align_sel: u8, elf64: bool, little: bool) -> Result
                     }
                     Note::GnuBuildId(b) => {
                         if !(name == b"GNU\0" && ty == 3) { fail!("note #{}: typed as build id but name/type are {:?}/{}", k, name, ty); }
-                        if b.0 != desc { fail!("note #{}: build id bytes {:?} != descriptor bytes {:?}", k, b.0, desc); }
+                        if !same(b.0, desc) { fail!("note #{}: build id is not the descriptor bytes buf[{}..{}]", k, ds, de); }
                     }
                     Note::Unknown(a) => {
                         if name == b"GNU\0" && (ty == 1 || ty == 3) { fail!("note #{}: a GNU note of type {} was not returned in its typed form", k, ty); }
-                        if a.n_type != ty || a.name != name || a.desc != desc { fail!("note #{}: (type, name, desc) = ({}, {:?}, {:?}) expected ({}, {:?}, {:?})", k, a.n_type, a.name, a.desc, ty, name, desc); }
+                        if a.n_type != ty || !same(a.name, name) || !same(a.desc, desc) { fail!("note #{}: type {} name len {} desc len {}; expected type {}, name = buf[{}..{}], desc = buf[{}..{}]", k, a.n_type, a.name.len(), a.desc.len(), ty, ns, ne, ds, de); }
                     }
                 }
                 off = next;
@@ -183,30 +184,31 @@ pub fn check_c14(buf: &[u8], align_sel: u8, elf64: bool, little: bool) -> Result
     Ok(())
 }
 
-/// C03: ElfBytes::section_data / segment_data return exactly the byte range the (caller-supplied) header designates, over an
-/// 80-byte ELF64/LE file (64-byte header without tables + 16 payload bytes)
+/// C03: ElfBytes::section_data / segment_data return exactly the byte range the (caller-supplied) header designates -- same
+/// start address and length as file[off..off+size] -- over a 60-byte ELF32/LE file (52-byte header without tables + 8 bytes)
 pub fn check_c03_range(off: u64, size: u64, memsz: u64, nobits: bool) -> Result<(), String> {
-    let mut file = [0u8; 80];
-    file[..8].copy_from_slice(&[0x7f, b'E', b'L', b'F', 2, 1, 1, 0]);
-    file[16] = 2; file[18] = 62; file[20] = 1; file[52] = 64; file[54] = 56; file[58] = 64;
-    for i in 64..80 { file[i] = i as u8; }
-    let eb = match elf::ElfBytes::<AnyEndian>::minimal_parse(&file) { Ok(e) => e, Err(_) => fail!("minimal_parse rejected a header-only ELF64 file") };
-    let want: Option<(usize, usize)> = off.checked_add(size).and_then(|e| if e <= 80 { Some((off as usize, e as usize)) } else { None });
+    const N: u64 = 60;
+    let mut file = [0u8; N as usize];
+    file[..8].copy_from_slice(&[0x7f, b'E', b'L', b'F', 1, 1, 1, 0]);
+    file[16] = 2; file[18] = 3; file[20] = 1; file[40] = 52; file[42] = 32; file[46] = 40;
+    let eb = match elf::ElfBytes::<AnyEndian>::minimal_parse(&file) { Ok(e) => e, Err(_) => fail!("minimal_parse rejected a header-only ELF32 file") };
+    let want: Option<(usize, usize)> = off.checked_add(size).and_then(|e| if e <= N { Some((off as usize, e as usize)) } else { None });
+    let same = |d: &[u8], s: usize, e: usize| d.len() == e - s && (e == s || core::ptr::eq(d.as_ptr(), file[s..].as_ptr()));
     let sh = elf::section::SectionHeader { sh_name: 0, sh_type: if nobits { 8 } else { 1 }, sh_flags: 0, sh_addr: 0, sh_offset: off, sh_size: size, sh_link: 0, sh_info: 0, sh_addralign: 0, sh_entsize: 0 };
     match eb.section_data(&sh) {
         Ok((d, c)) => {
             if c.is_some() { fail!("section_data returned a compression header for an uncompressed section"); }
             if nobits { if !d.is_empty() { fail!("section_data of a SHT_NOBITS section is not empty"); } }
-            else { match want { Some((s, e)) => if d != &file[s..e] { fail!("section_data returned {:?}, the header designates file[{}..{}]", d, s, e); },
-                                None => fail!("section_data is Ok although [{}, {}+{}) does not lie inside the 80-byte file", off, off, size) } }
+            else { match want { Some((s, e)) => if !same(d, s, e) { fail!("section_data returned {} bytes, the header designates file[{}..{}]", d.len(), s, e); },
+                                None => fail!("section_data is Ok although [{}, {}+{}) does not lie inside the {}-byte file", off, off, size, N) } }
         }
         Err(_) => if nobits || want.is_some() { fail!("section_data is Err although the designated range [{}, {}+{}) lies inside the file (nobits={})", off, off, size, nobits); },
     }
     let ph = elf::segment::ProgramHeader { p_type: 1, p_offset: off, p_vaddr: 0, p_paddr: 0, p_filesz: size, p_memsz: memsz, p_flags: 0, p_align: 0 };
     match (eb.segment_data(&ph), want) {
-        (Ok(d), Some((s, e))) => if d != &file[s..e] { fail!("segment_data returned {} bytes, the header designates file[{}..{}] (p_memsz = {})", d.len(), s, e, memsz); },
+        (Ok(d), Some((s, e))) => if !same(d, s, e) { fail!("segment_data returned {} bytes, the header designates file[{}..{}] (p_memsz = {})", d.len(), s, e, memsz); },
         (Err(_), None) => {}
-        (Ok(d), None) => fail!("segment_data is Ok ({} bytes) although [{}, {}+{}) does not lie inside the 80-byte file (p_memsz = {})", d.len(), off, off, size, memsz),
+        (Ok(d), None) => fail!("segment_data is Ok ({} bytes) although [{}, {}+{}) does not lie inside the {}-byte file (p_memsz = {})", d.len(), off, off, size, N, memsz),
         (Err(_), Some((s, e))) => fail!("segment_data is Err although file[{}..{}] lies inside the file", s, e),
     }
     Ok(())
@@ -225,7 +227,7 @@ pub fn check_c13_iter(buf: &[u8], count: u8, start: u8, little: bool, defs: bool
     let u32a = |o: u64| uval(little, &buf[o as usize..o as usize + 4]);
     let mut need = VerNeedIterator::new(e, Class::ELF64, count as u64, start as usize, buf);
     let mut def = VerDefIterator::new(e, Class::ELF64, count as u64, start as usize, buf);
-    for k in 0..3 {
+    for k in 0..2 {
         let fits = !buf.is_empty() && cnt > 0 && off + rs <= len && u16a(off) == 1;
         if defs {
             let got = def.next();
